@@ -160,7 +160,9 @@ impl Finding {
             self.stage, self.gen, self.family, self.oracle, self.entry, self.cfg, self.cap, hex(&self.input), esc(&self.input), self.real.replace('"', "'"), self.expected.replace('"', "'"))
     }
 }
-struct Ctx { findings: Vec<Finding>, evals: u64, max: usize, gen: &'static str }
+/// set by the history checks just before they report: (earlier buffer, its config bits, 1 = *_with_uninit_headers entry points)
+static mut HIST: Option<(Vec<u8>, u8, u8)> = None;
+struct Ctx { findings: Vec<Finding>, evals: u64, max: usize, gen: &'static str, hist: Vec<Option<(Vec<u8>, u8, u8)>> }
 impl Ctx {
     fn add(&mut self, mut f: Finding) {
         f.gen = self.gen;
@@ -168,7 +170,18 @@ impl Ctx {
         let kind = |x: &str| -> &'static str { if x.contains("Complete") { "C" } else if x.contains("Partial") { "P" } else { "E" } };
         let same = self.findings.iter().filter(|g| g.family == f.family && g.stage == f.stage && g.oracle == f.oracle && g.gen == f.gen
             && kind(&g.real) == kind(&f.real) && kind(&g.expected) == kind(&f.expected)).count();
-        if same < 2 && self.findings.len() < self.max { self.findings.push(f); }
+        #[allow(static_mut_refs)]
+        let h = unsafe { HIST.take() };
+        if same < 2 && self.findings.len() < self.max { self.findings.push(f); self.hist.push(h); }
+    }
+    fn print(&self) {
+        for (f, h) in self.findings.iter().zip(self.hist.iter()) {
+            let j = f.json();
+            match h {
+                Some((hb, hc, hu)) => println!("{},\"history_hex\":\"{}\",\"history_cfg\":{},\"history_uninit\":{}}}", &j[..j.len() - 1], hex(hb), hc, hu),
+                None => println!("{}", j),
+            }
+        }
     }
     fn full(&self) -> bool { self.findings.len() >= self.max }
 }
@@ -472,6 +485,7 @@ fn check_history_req(ctx: &mut Ctx, a: &[u8], cfga: u8, b: &[u8], cfgb: u8, cap:
     let same_fields = !complete || (used.method == fresh.method && used.path == fresh.path && used.version == fresh.version
         && used.headers.len() == fresh.headers.len() && used.headers.iter().zip(fresh.headers.iter()).all(|(x, y)| x.name == y.name && x.value == y.value));
     if !same_status || !same_fields {
+        unsafe { HIST = Some((a.to_vec(), cfga, 0)); }
         ctx.add(Finding { stage: "any", gen: "", family: "request", oracle: "history".into(), entry: "ParserConfig::parse_request (reused value)".into(), cfg: cfgb, cap,
             input: b.to_vec(), real: format!("after an earlier parse of {:?} (cfg {}): {:?} method={:?} path={:?} version={:?} nheaders={}", String::from_utf8_lossy(a), cfga, r1, used.method, used.path, used.version, used.headers.len()),
             expected: format!("fresh value: {:?} method={:?} path={:?} version={:?} nheaders={}", r2, fresh.method, fresh.path, fresh.version, fresh.headers.len()) });
@@ -494,9 +508,50 @@ fn check_history_resp(ctx: &mut Ctx, a: &[u8], cfga: u8, b: &[u8], cfgb: u8, cap
     let same_fields = !complete || (used.version == fresh.version && used.code == fresh.code && used.reason == fresh.reason
         && used.headers.len() == fresh.headers.len() && used.headers.iter().zip(fresh.headers.iter()).all(|(x, y)| x.name == y.name && x.value == y.value));
     if !same_status || !same_fields {
+        unsafe { HIST = Some((a.to_vec(), cfga, 0)); }
         ctx.add(Finding { stage: "any", gen: "", family: "response", oracle: "history".into(), entry: "ParserConfig::parse_response (reused value)".into(), cfg: cfgb, cap,
             input: b.to_vec(), real: format!("after an earlier parse of {:?} (cfg {}): {:?} version={:?} code={:?} reason={:?} nheaders={}", String::from_utf8_lossy(a), cfga, r1, used.version, used.code, used.reason, used.headers.len()),
             expected: format!("fresh value: {:?} version={:?} code={:?} reason={:?} nheaders={}", r2, fresh.version, fresh.code, fresh.reason, fresh.headers.len()) });
+    }
+}
+/// C18 through the *_with_uninit_headers entry points: the earlier parse leaves `headers` pointing into its own array
+fn check_history_uninit(ctx: &mut Ctx, a: &[u8], cfga: u8, b: &[u8], cfgb: u8, cap: usize, resp: bool) {
+    ctx.evals += 1;
+    set_cur(if resp { "response" } else { "request" }, cfgb, cap, b);
+    let (pa, pb) = (mkcfg(Cfg::from_bits(cfga)), mkcfg(Cfg::from_bits(cfgb)));
+    let mut u1: Vec<MaybeUninit<httparse::Header>> = (0..cap).map(|_| MaybeUninit::uninit()).collect();
+    let mut u2: Vec<MaybeUninit<httparse::Header>> = (0..cap).map(|_| MaybeUninit::uninit()).collect();
+    let mut u3: Vec<MaybeUninit<httparse::Header>> = (0..cap).map(|_| MaybeUninit::uninit()).collect();
+    let (mut e1, mut e2): ([httparse::Header; 0], [httparse::Header; 0]) = ([], []);
+    let (real, expected, differ);
+    if !resp {
+        let mut used = httparse::Request::new(&mut e1);
+        let _ = pa.parse_request_with_uninit_headers(&mut used, a, &mut u1);
+        let r1 = pb.parse_request_with_uninit_headers(&mut used, b, &mut u2);
+        let mut fresh = httparse::Request::new(&mut e2);
+        let r2 = pb.parse_request_with_uninit_headers(&mut fresh, b, &mut u3);
+        let complete = matches!(r2, Ok(httparse::Status::Complete(_)));
+        differ = outcome_of(r1) != outcome_of(r2) || (complete && !(used.method == fresh.method && used.path == fresh.path && used.version == fresh.version
+            && used.headers.len() == fresh.headers.len() && used.headers.iter().zip(fresh.headers.iter()).all(|(x, y)| x.name == y.name && x.value == y.value)));
+        real = format!("after an earlier parse of {:?} (cfg {}): {:?} method={:?} path={:?} version={:?} nheaders={}", String::from_utf8_lossy(a), cfga, r1, used.method, used.path, used.version, used.headers.len());
+        expected = format!("fresh value: {:?} method={:?} path={:?} version={:?} nheaders={}", r2, fresh.method, fresh.path, fresh.version, fresh.headers.len());
+    } else {
+        let mut used = httparse::Response::new(&mut e1);
+        let _ = pa.parse_response_with_uninit_headers(&mut used, a, &mut u1);
+        let r1 = pb.parse_response_with_uninit_headers(&mut used, b, &mut u2);
+        let mut fresh = httparse::Response::new(&mut e2);
+        let r2 = pb.parse_response_with_uninit_headers(&mut fresh, b, &mut u3);
+        let complete = matches!(r2, Ok(httparse::Status::Complete(_)));
+        differ = outcome_of(r1) != outcome_of(r2) || (complete && !(used.version == fresh.version && used.code == fresh.code && used.reason == fresh.reason
+            && used.headers.len() == fresh.headers.len() && used.headers.iter().zip(fresh.headers.iter()).all(|(x, y)| x.name == y.name && x.value == y.value)));
+        real = format!("after an earlier parse of {:?} (cfg {}): {:?} version={:?} code={:?} reason={:?} nheaders={}", String::from_utf8_lossy(a), cfga, r1, used.version, used.code, used.reason, used.headers.len());
+        expected = format!("fresh value: {:?} version={:?} code={:?} reason={:?} nheaders={}", r2, fresh.version, fresh.code, fresh.reason, fresh.headers.len());
+    }
+    if differ {
+        unsafe { HIST = Some((a.to_vec(), cfga, 1)); }
+        ctx.add(Finding { stage: "any", gen: "", family: if resp { "response" } else { "request" }, oracle: "history".into(),
+            entry: (if resp { "ParserConfig::parse_response_with_uninit_headers (reused value)" } else { "ParserConfig::parse_request_with_uninit_headers (reused value)" }).into(), cfg: cfgb, cap,
+            input: b.to_vec(), real, expected });
     }
 }
 fn search_history(ctx: &mut Ctx) {
@@ -510,6 +565,10 @@ fn search_history(ctx: &mut Ctx) {
     for cap in [0usize, 1, 4] { for &ca in &[0u8, 4, 8, 127] { for &cb in &[0u8, 4, 8, 127] {
         for a in &reqs { for b in &reqs { check_history_req(ctx, a, ca, b, cb, cap); } }
         for a in &resps { for b in &resps { check_history_resp(ctx, a, ca, b, cb, cap); } }
+        if ca == cb || ca == 0 {
+            for a in &reqs { for b in &reqs { check_history_uninit(ctx, a, ca, b, cb, cap, false); } }
+            for a in &resps { for b in &resps { check_history_uninit(ctx, a, ca, b, cb, cap, true); } }
+        }
     } } }
     // overlapping sub-slices of ONE allocation (stale pointers of an earlier parse lie inside the next buffer)
     for big in &reqs { for i in 0..2usize { for k in 0..2usize { for j in (i..=big.len()).step_by(3) { for l in [big.len()] {
@@ -545,6 +604,9 @@ fn family(name: &str, n: usize) -> (u8, u8, Vec<u8>) {
         "folded-blank-lines" => { b = b"HTTP/1.1 200 OK\r\nX: a\r\n".to_vec(); b.extend(rep(b" \r\n", n)); (1, 2, b) }
         "folded-lines" => { b = b"HTTP/1.1 200 OK\r\nX: a\r\n".to_vec(); b.extend(rep(b" bb\r\n", n)); (1, 2, b) }
         "ignored-lines-req" => { b = b"GET / HTTP/1.1\r\n".to_vec(); b.extend(rep(b"@\n", n)); (0, 64, b) }
+        "ignored-ctl-value-req" => { b = b"GET / HTTP/1.1\r\n".to_vec(); b.extend(rep(b"a: b\x01c\r\n", n)); (0, 64, b) }
+        "ignored-ctl-value-resp" => { b = b"HTTP/1.1 200 OK\r\n".to_vec(); b.extend(rep(b"a: b\x7fc\n", n)); (1, 32, b) }
+        "ignored-long-line" => { b = b"HTTP/1.1 200 OK\r\nBad Header".to_vec(); b.extend(rep(b"x y\tz", n)); (1, 32, b) }
         "ignored-lines-resp" => { b = b"HTTP/1.1 200 OK\r\n".to_vec(); b.extend(rep(b"b d\r\n", n)); (1, 32, b) }
         "ws-after-colon" => { b = b"GET / HTTP/1.1\r\nX:".to_vec(); b.extend(rep(b" \t", n)); (0, 0, b) }
         "ws-after-colon-fold" => { b = b"HTTP/1.1 200 OK\r\nX:".to_vec(); b.extend(rep(b" \r\n", n)); (1, 2, b) }
@@ -565,7 +627,7 @@ fn family(name: &str, n: usize) -> (u8, u8, Vec<u8>) {
 }
 fn search_timing() -> Vec<String> {
     let mut out = vec![];
-    for name in ["folded-blank-lines", "folded-lines", "ignored-lines-req", "ignored-lines-resp", "ws-after-colon", "ws-after-colon-fold", "ws-before-first",
+    for name in ["folded-blank-lines", "folded-lines", "ignored-lines-req", "ignored-lines-resp", "ignored-ctl-value-req", "ignored-ctl-value-resp", "ignored-long-line", "ws-after-colon", "ws-after-colon-fold", "ws-before-first",
                  "long-value", "long-value-trailing-ws", "long-name", "long-target", "many-headers", "many-headers-spaces", "empty-lines", "reason",
                  "status-spaces", "request-spaces", "headers-only", "chunk-ext"] {
         // each family as is (buffer ends inside the run) and followed by a closing suffix (the run is followed by real content)
@@ -601,7 +663,7 @@ fn main() {
         std::process::exit(if f.is_empty() { 0 } else { 1 });
     }
     if args.len() >= 3 && args[1] == "search" {
-        let mut ctx = Ctx { findings: vec![], evals: 0, max: 60, gen: "enum" };
+        let mut ctx = Ctx { findings: vec![], evals: 0, max: 60, gen: "enum", hist: vec![] };
         let fam = args[2].as_str();
         if fam == "chunk" || fam == "all" { search_chunk(&mut ctx); }
         if fam == "request" || fam == "all" { search_request(&mut ctx); }
@@ -615,22 +677,36 @@ fn main() {
             ctx.add(Finding { stage: "any", gen: "", family: "alloc", oracle: "allocation".into(), entry: "any parse entry point".into(), cfg: 0, cap: 0, input: vec![],
                               real: format!("{} allocator calls inside parse calls over this search", pa), expected: "0".into() });
         }
-        for f in &ctx.findings { println!("{}", f.json()); }
+        ctx.print();
         eprintln!("evaluations={} findings={} parse_allocs={}", ctx.evals, ctx.findings.len(), pa);
         std::process::exit(if ctx.findings.is_empty() { 0 } else { 1 });
     }
     if args.len() >= 6 && args[1] == "replay" {
-        let mut ctx = Ctx { findings: vec![], evals: 0, max: 10, gen: "replay" };
+        let mut ctx = Ctx { findings: vec![], evals: 0, max: 10, gen: "replay", hist: vec![] };
         let cfgb: u8 = args[3].parse().unwrap();
         let cap: usize = args[4].parse().unwrap();
         let buf = unhex(&args[5]);
+        if args.len() >= 9 {
+            // a history finding: earlier buffer, its config bits, entry-point flavour
+            let (hb, hc, hu) = (unhex(&args[6]), args[7].parse::<u8>().unwrap(), args[8].parse::<u8>().unwrap());
+            match (args[2].as_str(), hu) {
+                ("request", 0) => check_history_req(&mut ctx, &hb, hc, &buf, cfgb, cap),
+                ("response", 0) => check_history_resp(&mut ctx, &hb, hc, &buf, cfgb, cap),
+                ("request", _) => check_history_uninit(&mut ctx, &hb, hc, &buf, cfgb, cap, false),
+                _ => check_history_uninit(&mut ctx, &hb, hc, &buf, cfgb, cap, true),
+            }
+            for f in &ctx.findings { println!("reused value: {}\nfresh value:  {}", f.real, f.expected); }
+            if ctx.findings.is_empty() { println!("reused and fresh value agree"); }
+            ctx.print();
+            std::process::exit(if ctx.findings.is_empty() { 0 } else { 1 });
+        }
         match args[2].as_str() {
             "chunk" => { check_chunk(&mut ctx, &buf); println!("real: {:?}\noracle: {:?}", httparse::parse_chunk_size(&buf), spec_chunk(&buf)); }
             "request" => { check_request(&mut ctx, &buf, cfgb, cap); println!("real: {:?}\noracle: {:?}", real_request(&buf, Cfg::from_bits(cfgb), cap, 0), spec_request(&buf, Cfg::from_bits(cfgb), cap)); }
             "response" => { check_response(&mut ctx, &buf, cfgb, cap); println!("real: {:?}\noracle: {:?}", real_response(&buf, Cfg::from_bits(cfgb), cap, 0), spec_response(&buf, Cfg::from_bits(cfgb), cap)); }
             _ => { check_headers(&mut ctx, &buf, cap); println!("oracle: {:?}", spec_hdrs(&buf, 0, HCfg::default(), cap)); }
         }
-        for f in &ctx.findings { println!("{}", f.json()); }
+        ctx.print();
         std::process::exit(if ctx.findings.is_empty() { 0 } else { 1 });
     }
     eprintln!("usage: witness search <chunk|request|response|headers|all> | witness replay <family> <cfgbits> <cap> <hex>");
